@@ -82,6 +82,7 @@ def full_snapshot(sim, five):
 def new_sim(case):
     from architecture_simulator.simulation.riscv_simulation import RiscvSimulation
     return RiscvSimulation(mode="five_stage_pipeline" if case["five"] else "single_stage_pipeline",
+                           detect_data_hazards=case.get("haz", True),
                            data_cache=cache_options(case["dc"]), instruction_cache=cache_options(case["ic"]))
 
 
@@ -123,10 +124,16 @@ class LifecycleRv(Slice):
         ops = [[0, x] for x in texts]
         for _ in range(rng.randrange(0, 12)):
             ops.append(1)
+        if rng.random() < 0.25:
+            # a reload in mid-run (instructions still in flight in five-stage mode), then on with the new program
+            t2, kind = gen_text(rng)
+            ops.append([0, t2])
+            for _ in range(rng.randrange(0, 8)):
+                ops.append(1)
         ops.append([2, 3000] if rng.random() < 0.7 else 1)
         for _ in range(rng.randrange(0, 4)):
             ops.append(rng.choice([1, [2, 3000]]))
-        return {"five": five, "dc": gen_rv.gen_cache_cfg(rng) if rng.random() < 0.3 else [],
+        return {"five": five, "haz": rng.random() < 0.75, "dc": gen_rv.gen_cache_cfg(rng) if rng.random() < 0.3 else [],
                 "ic": gen_rv.gen_cache_cfg(rng) if rng.random() < 0.3 else [],
                 "regs": [[r, rng.choice([0, 1, 5, 0x4000])] for r in (1, 2, 3)], "ops": ops, "kind": kind}
 
@@ -152,6 +159,10 @@ class LifecycleRv(Slice):
                 tk = RA.tokens_of(op[1])
                 if tk[0] != "ok":
                     convertible = False
+                if steps and not o[1]:
+                    cl.add("reload-mid-run")
+                    if five and not case.get("haz", True):
+                        cl.add("reload-mid-run-nohaz")
                 mops.append([0, tk[1] if tk[0] == "ok" else []])
                 if o[1]:
                     cl.add("failed-load")
@@ -174,7 +185,7 @@ class LifecycleRv(Slice):
         if steps >= 3:
             cl.add("steps>=3")
         if convertible:
-            mt = model.call([70, 1 if five else 0, 1, case["dc"], case["ic"], case["regs"], mops])
+            mt = model.call([70, 1 if five else 0, 1 if case.get("haz", True) else 0, case["dc"], case["ic"], case["regs"], mops])
             from common import norm_model_state
             from common import make_instr
             for k, (a, b) in enumerate(zip(it, mt)):
@@ -248,7 +259,7 @@ class LifecycleRv(Slice):
                 "ops": [("load: " + o[1].replace("\n", " | ")) if isinstance(o, list) and o[0] == 0 else ("step" if o == 1 else "run") for o in case["ops"]]}
 
     def required_classes(self, tier):
-        return ["five", "single", "after-done", "failed-load", "fault", "kind:exit", "kind:jump-out", "kind:empty", "kind:falloff", "steps>=3"]
+        return ["five", "single", "after-done", "failed-load", "fault", "kind:exit", "kind:jump-out", "kind:empty", "kind:falloff", "steps>=3", "reload-mid-run", "reload-mid-run-nohaz"]
 
 
 def gen_toy_text(rng):
